@@ -349,7 +349,10 @@ func (g *genCtx) drawModule(name string, label string) *Module {
 func GenProgram(pid int, allow Allow) *rapid.Generator[*Program] {
 	return rapid.Custom(func(rt *rapid.T) *Program {
 		g := &genCtx{rt: rt, pid: pid, allow: allow, enumDef: map[string]*rc.EnumJ{}}
-		p := &Program{ID: pid, WithoutTrace: rapid.Bool().Draw(rt, "withoutTrace"), AddServant: true}
+		p := &Program{ID: pid, WithoutTrace: rapid.Bool().Draw(rt, "withoutTrace"), AddServant: rapid.IntRange(0, 3).Draw(rt, "addServant") > 0}
+		p.JsonOmitEmpty = rapid.IntRange(0, 3).Draw(rt, "jsonOmitEmpty") == 0
+		p.DispatchReporter = rapid.IntRange(0, 3).Draw(rt, "dispatchReporter") == 0
+		p.ModuleUpper = rapid.IntRange(0, 3).Draw(rt, "moduleUpper") == 0
 		shape := rapid.IntRange(0, 3).Draw(rt, "shape")
 		base := fmt.Sprintf("q%d", pid)
 		switch shape {
